@@ -180,7 +180,7 @@ pub fn mutate_text(ch: &mut Choices, text: &mut String, other: &str) {
         }
         9 => {
             let p = at(ch, &bs);
-            text.insert_str(p, *ch.choose(&["/*", "*/", "//", "\r", "\\", "<", ">", "->", "%prec", "%empty", "%left", "%token", "'", "\"", "{", "}", "%s", "%x", "<+", "::"]));
+            text.insert_str(p, *ch.choose(&["/*", "*/", "//", "\r", "\x0c", "\x0b", "\u{85}", "\u{2028}", "\u{2029}", "\u{200e}", "\\", "<", ">", "->", "%prec", "%empty", "%left", "%token", "'", "\"", "{", "}", "%s", "%x", "<+", "::"]));
         }
         12 | 13 => {
             // class-preserving substitution: an ASCII digit / blank / letter becomes a multi-byte
@@ -374,7 +374,7 @@ impl Prop for C12 {
         v
     }
     fn rule(&self) -> String {
-        "Texts: 75 specifications extracted from the repository (every .y/.l, the grammar/lexer sections of cttests, %grmtools snippets of the header tests) and six degenerate ones of my own (grammars without any token, a lexer without rules, with a skip rule only, with declarations only), own generated .y/.l renderings and header snippets, with 0-4 mutations (truncate at any char boundary, delete/duplicate a bracket-quote-brace, splice two files, 25-digit number, multi-byte character (letters, Unicode digits and blanks, combining, 4-byte) at any boundary, an ASCII digit/blank/letter replaced by a multi-byte character of the same Unicode class, remove/insert %%, replace/prepend a %grmtools section, insert a keyword/comment opener, delete/duplicate a line, premature end: the text from some line start on replaced by an unterminated line fragment such as a comment, a declaration or a rule prefix); plus all unmutated files and every prefix of the header snippets. Each text goes through ASTWithValidityInfo::new (5 kinds) and ::from_str, YaccGrammar::new_with_storaget/from_str, ast().warnings(), LRNonStreamingLexerDef::from_str/new_with_options (default flags, and for 1/3 of the texts a random non-empty subset of allow_wholeline_comments, posix_escapes, octal, case_insensitive, ignore_whitespace, multi_line, swap_greed), GrmtoolsSectionParser::parse(required true/false). Oracle: returns within the watchdog, no panic, Ok or non-empty Err, is_valid <=> no errors, every error/warning span inside the text on char boundaries, the number of spans agrees with the error's declared kind (one for a plain error, two or more for a duplication; the occurrences of a duplicated %grmtools key all show the same key), and the builders' SpannedDiagnosticFormatter renders every error and warning without panicking. Evaluation = one text through all entry points. Non-trivial: some parser got past the header into declarations/rules (an error located after the first line or a valid result); distinct by hash(text).".into()
+        "Texts: 75 specifications extracted from the repository (every .y/.l, the grammar/lexer sections of cttests, %grmtools snippets of the header tests) and six degenerate ones of my own (grammars without any token, a lexer without rules, with a skip rule only, with declarations only), own generated .y/.l renderings and header snippets, with 0-4 mutations (truncate at any char boundary, delete/duplicate a bracket-quote-brace, splice two files, 25-digit number, multi-byte character (letters, Unicode digits and blanks, combining, 4-byte) at any boundary, an ASCII digit/blank/letter replaced by a multi-byte character of the same Unicode class, remove/insert %%, replace/prepend a %grmtools section, insert a keyword/comment opener or one of the less common blank and line-ending characters (form feed, VT, NEL, U+2028, U+2029, LRM), delete/duplicate a line, premature end: the text from some line start on replaced by an unterminated line fragment such as a comment, a declaration or a rule prefix); plus all unmutated files and every prefix of the header snippets. Each text goes through ASTWithValidityInfo::new (5 kinds) and ::from_str, YaccGrammar::new_with_storaget/from_str, ast().warnings(), LRNonStreamingLexerDef::from_str/new_with_options (default flags, and for 1/3 of the texts a random non-empty subset of allow_wholeline_comments, posix_escapes, octal, case_insensitive, ignore_whitespace, multi_line, swap_greed), GrmtoolsSectionParser::parse(required true/false). Oracle: returns within the watchdog, no panic, Ok or non-empty Err, is_valid <=> no errors, every error/warning span inside the text on char boundaries, the number of spans agrees with the error's declared kind (one for a plain error, two or more for a duplication; the occurrences of a duplicated %grmtools key all show the same key), and the builders' SpannedDiagnosticFormatter renders every error and warning without panicking. Evaluation = one text through all entry points. Non-trivial: some parser got past the header into declarations/rules (an error located after the first line or a valid result); distinct by hash(text).".into()
     }
     fn assumptions(&self) -> Vec<String> {
         vec!["'promptly' = 5 s for inputs <= 8 KB (normal cost: microseconds), re-confirmed with 50 s in a fresh process".into()]
